@@ -111,16 +111,10 @@ def r23(ctx, chk, rule2="C03.2", rule3="C03.3"):
         # the store may be skipped only when nothing was dropped
         filtered_len = None
         if cond != TRUE:
-            okc = False
-            if cond[0] == "cmp" and cond[1] == "!=":
-                lens = [x for x in (cond[2], cond[3]) if x[0] == "call" and x[1] == "len"]
-                if len(lens) == 2:
-                    args = [l[2][0] for l in lens]
-                    if SELF_NEXT in args:
-                        other = [a for a in args if a != SELF_NEXT][0]
-                        ko = k.kfold(other)
-                        if ko is not None and ko.kind == "COMPR" and ko.term == ("e",) and ko.source == SELF_NEXT and _alive_filter_verdict(ko.filter) is None:
-                            okc = True
+            okc = _something_dropped(k, cond)
+            if okc is None:
+                chk.undecided(rule2, where, "next_states is replaced only under `%s`; not recognised as 'a successor was dropped'" % show(cond))
+                continue
             if okc:
                 chk.ok(rule2, where, "the assignment is skipped only when no successor was dropped (len(survivors) == len(next_states))")
             else:
@@ -179,6 +173,59 @@ def _deep(sx, t, seen=None):
                     out += _deep(sx, u, seen)
                 out += _deep(sx, L.source, seen)
     return out
+
+
+def _something_dropped(k, cond):
+    """True if cond <=> 'the survivor list is shorter than the successor list' (survivors = alive filter of S);
+    False if it recognisably tests something else about the lengths; None if not recognised."""
+    def is_len(t):
+        return t[0] == "call" and t[1] == "len" and len(t[2]) == 1
+
+    def kind(t):
+        if not is_len(t):
+            return None
+        a = t[2][0]
+        if a == SELF_NEXT:
+            return "S"
+        ko = k.kfold(a)
+        if ko is not None and ko.kind == "COMPR" and ko.term == ("e",) and ko.source == SELF_NEXT and _alive_filter_verdict(ko.filter) is None:
+            return "F"
+        if ko is not None and ko.kind == "COMPR" and ko.source == SELF_NEXT and ko.filter == simp(("cmp", "==", SF(REACH), C(0))):
+            return "D"
+        return None
+    if cond[0] == "truthy":
+        cond = simp(("cmp", "!=", cond[1], C(0)))
+    if cond[0] != "cmp":
+        return None
+    op, a, b = cond[1], cond[2], cond[3]
+    ka, kb = kind(a), kind(b)
+    if {ka, kb} == {"S", "F"}:
+        if op == "!=":
+            return True
+        if op == "<":
+            return ka == "F"          # len(F) < len(S)
+        return False
+    # len(S) - len(F) compared with 0, or number of dead successors compared with 0
+    def diff_kind(t):
+        if t[0] == "add" and len(t[1]) == 2:
+            pos = [x for x in t[1] if x[0] != "neg"]
+            neg = [x[1] for x in t[1] if x[0] == "neg"]
+            if len(pos) == 1 and len(neg) == 1 and kind(pos[0]) == "S" and kind(neg[0]) == "F":
+                return "S-F"
+        if kind(t) == "D":
+            return "S-F"
+        return None
+    for x, y, flip in ((a, b, False), (b, a, True)):
+        if diff_kind(y) == "S-F" and is_const(x) and x[1] == 0:
+            # x op y  with x = 0 (flip False)  /  y op x (flip True)
+            if op == "!=":
+                return True
+            if op == "<" and not flip:
+                return True           # 0 < S-F
+            if op == "<=":
+                return False
+            return False
+    return None
 
 
 def _sequential_removal(ctx, chk, k, cls, rule3, where):
@@ -480,6 +527,6 @@ def run(ctx, chk):
     r4_player_two(ctx, chk)
     r5_dispatch(ctx, chk)
     r6_monotone(ctx, chk)
-    chk.require_instances("C03.1", 30)
+    chk.require_instances("C03.1", 20)
     chk.require_instances("C03.2", 2)
     chk.require_instances("C03.3", 2)
